@@ -232,7 +232,7 @@ func c17Documents(rep *Report, worlds []*World, full bool) {
 	protoMenu := []core.ProtocolID{1, 2, 3, 4, 0, 7, -1}
 	actMenu := []core.ActionID{1, 2, 0, 9}
 	ccMenu := []*core.CrossChainID{ccid(2, "0"), ccid(3, "1"), ccid(4, "noble"), ccid(1, "channel-0"), nil, ccid(2, "x"), ccid(4, strings.Repeat("a", 32)), ccid(4, strings.Repeat("a", 33)),
-		ccid(1, "channel-18446744073709551615"), ccid(2, "4294967295"), ccid(2, "4294967296"), ccid(4, "a:b"), ccid(4, "a\x00b"), ccid(2, "+0"), ccid(0, "0"), ccid(4, "")}
+		ccid(1, "channel-18446744073709551615"), ccid(2, "4294967295"), ccid(2, "4294967296"), ccid(4, "a:b"), ccid(4, "a\x00b"), ccid(2, "+0"), ccid(0, "0"), ccid(4, ""), ccid(4, "é"), ccid(4, "日本")}
 	amtMenu := []dispatchertypes.DispatchedAmountEntry{
 		{SourceId: ccid(1, "channel-0"), DestinationId: ccid(2, "0"), Denom: "uusdc", AmountDispatched: amt(10, 9)},
 		{SourceId: ccid(1, "channel-1"), DestinationId: ccid(4, "noble"), Denom: "uother", AmountDispatched: amt(5, 5)},
@@ -245,6 +245,9 @@ func c17Documents(rep *Report, worlds []*World, full bool) {
 		{SourceId: ccid(1, "channel-0"), DestinationId: ccid(4, "vault:treasury"), Denom: "uusdc", AmountDispatched: amt(3, 3)},
 		{SourceId: ccid(1, "channel-0"), DestinationId: ccid(4, "a\x00b"), Denom: "uusdc", AmountDispatched: amt(3, 3)},
 		{SourceId: ccid(1, "channel-0"), DestinationId: ccid(4, ":"), Denom: "u/s:d c", AmountDispatched: amt(3, 0)},
+		// identifiers outside ASCII in NON-terminal key positions (source and destination of a statistics entry)
+		{SourceId: ccid(1, "channel-0"), DestinationId: ccid(4, "é"), Denom: "uusdc", AmountDispatched: amt(4, 4)},
+		{SourceId: ccid(4, "日本"), DestinationId: ccid(4, "\u2028x"), Denom: "uusdc", AmountDispatched: amt(4, 3)},
 		{SourceId: ccid(1, "channel-0"), DestinationId: ccid(3, "4294967295"), Denom: "uusdc", AmountDispatched: dispatchertypes.AmountDispatched{Incoming: max256, Outgoing: max256}},
 		// (an entry with a nil math.Int is not expressible as a JSON document — the codec never produces it — and is left out)
 		{SourceId: ccid(2, "0"), DestinationId: ccid(1, "channel-3"), Denom: "uusdc", AmountDispatched: amt(1, 0)},
